@@ -37,6 +37,55 @@ def contradicts(path_conds, vatoms):
     return False
 
 
+def _const_facts(conds):
+    """`x == K` / `x != K` facts of a conjunction, through zero/sign extensions of x"""
+    eq, ne = {}, {}
+    st = list(conds)
+    while st:
+        c = st.pop()
+        if not (isinstance(c, tuple) and c):
+            continue
+        if c[0] == "land":
+            st.extend([c[1], c[2]])
+            continue
+        if c[0] == "cmp" and c[1] in ("eq", "ne"):
+            for k, x in ((c[3], c[4]), (c[4], c[3])):
+                if not T.is_k(k) or T.is_k(x):
+                    continue
+                kv = k[2]
+                while isinstance(x, tuple) and x[0] in ("zext", "sext"):
+                    inner = x[2]
+                    kk = T.K(T.width(inner), kv)
+                    back = T.zext(x[1], kk) if x[0] == "zext" else T.sext(x[1], kk)
+                    if back[2] != kv:
+                        x = None
+                        break
+                    x, kv = inner, kk[2]
+                if x is None:
+                    continue
+                if c[1] == "eq":
+                    eq[x] = kv
+                else:
+                    ne.setdefault(x, set()).add(kv)
+    return eq, ne
+
+
+def incompatible(path_conds, vatoms):
+    """contradicts(), plus: the two conjunctions fix one variable to different constants, or one fixes
+    it to a constant the other excludes"""
+    if contradicts(path_conds, vatoms):
+        return True
+    e1, n1 = _const_facts(path_conds)
+    e2, n2 = _const_facts(vatoms)
+    for x, k in e1.items():
+        if (x in e2 and e2[x] != k) or k in n2.get(x, ()):
+            return True
+    for x, k in e2.items():
+        if k in n1.get(x, ()):
+            return True
+    return False
+
+
 def run(rep, tier):
     cx = Ctx(rep, "std")
     vm = vmodel.VerifierModel(cx)
@@ -52,6 +101,7 @@ def run(rep, tier):
     re_ = rep.rule("R05.e", "opcodes admitted in last position never fall through to pc+1", floor=2)
     rf = rep.rule("R05.f", "every control transfer of the interpreter targets an address the verifier validated", floor=40)
     nxt = T.op("add", 64, vmodel.PC, T.K(64, 1))
+    fall = {}
     for v, r in sorted(accepted.items()):
         paths = im.per_opcode(v)
         unrec = [u for p in paths for u in p["unrec"] if "field write on symbolic" not in u]
@@ -65,24 +115,37 @@ def run(rep, tier):
                 rep.ob(rc, "opc=%#04x/%s" % (v, "&".join(sorted(T.show(c) for c in p["conds"]))[:80]), ok,
                        "panic path in the arm of accepted opcode %#04x" % v,
                        expected="excluded by a verifier condition", found=[T.show(c) for c in p["conds"]], sample=True)
-        # control transfers
-        vt = set()
+        # control transfers: per accepting path of the verifier and per interpreter path compatible with
+        # it, the next pc (specialised by the path's `field == K` atoms) is validated on that very path
+        d = isa.TABLE[v]
+        from props.c03 import eq_substitution
+        results = {}
         for atoms, _ in r["accept"]:
+            vt = set()
             for a in atoms:
                 for x in _walk(a):
                     if isinstance(x, tuple) and len(x) == 3 and x[0] == "v" and isinstance(x[1], tuple) and x[1][0] == "insn":
                         vt.add(x[1][1])
-        d = isa.TABLE[v]
-        for p in live:
-            if p["exit"] is not None or p["pc"] is None:
-                continue
-            if p["pc"] == nxt or (d["kind"] == "lddw" and p["pc"] == T.op("add", 64, vmodel.PC, T.K(64, 2))):
-                continue
-            if d["kind"] == "exit":
-                continue  # return address: pc+1 of an earlier local call, which is never the last instruction (R05.e)
-            rep.ob(rf, "opc=%#04x/%s" % (v, T.show(p["pc"])[:60]), p["pc"] in vt,
-                   "branch target of opcode %#04x" % v, expected=[T.show(t) for t in vt], found=T.show(p["pc"]),
-                   sample=(v == 0x05))
+                if isinstance(a, tuple) and len(a) == 5 and a[0] == "cmp" and a[1] == "ult" and "len(" in T.show(a[4]):
+                    vt.add(a[3])
+            f = eq_substitution(list(atoms))
+            for p in live:
+                if p["exit"] is not None or p["pc"] is None or incompatible(p["conds"], atoms):
+                    continue
+                t = f(p["pc"])
+                if d["kind"] == "exit":
+                    continue  # return address: pc+1 of an earlier local call, which is never the last instruction (R05.e)
+                if t == nxt:
+                    fall.setdefault(v, []).append([T.show(a) for a in atoms])
+                    continue
+                if d["kind"] == "lddw" and t == T.op("add", 64, vmodel.PC, T.K(64, 2)):
+                    continue
+                k = "opc=%#04x/%s" % (v, T.show(p["pc"])[:60])
+                ok = t in vt or f(t) in {f(x) for x in vt}
+                prev = results.get(k)
+                results[k] = (ok and (prev[0] if prev else True), t, vt if not ok else (prev[2] if prev else vt))
+        for k, (ok, t, vt) in sorted(results.items()):
+            rep.ob(rf, k, ok, "branch target of opcode %#04x" % v, expected=[T.show(x) for x in vt], found=T.show(t), sample=(v == 0x05))
     rep.info("accepted_opcodes", len(accepted))
 
     # last-position opcodes: evaluate the verifier's last-instruction atom for all 256 values
@@ -98,9 +161,10 @@ def run(rep, tier):
     for v in sorted(last_ok):
         paths = [p for p in im.per_opcode(v) if not (p["exit"] and p["exit"][0] == "panic")]
         bad = [p for p in paths if p["exit"] is None and p["pc"] == nxt]
-        rep.ob(re_, "opc=%#04x" % v, not bad and bool(paths),
+        rep.ob(re_, "opc=%#04x" % v, not bad and bool(paths) and not fall.get(v),
                "opcode %#04x admitted last: every path returns or transfers control" % v,
-               expected="no path continues at pc+1", found="%d fall-through paths" % len(bad))
+               expected="no path continues at pc+1 under any accepting path of the verifier",
+               found="%d fall-through paths; accepting paths under which the target is pc+1: %s" % (len(bad), fall.get(v, [])[:2]))
 
     rd = rep.rule("R05.d", "register numbers the verifier admits index inside the register file", floor=1)
     rep.ob(rd, "regfile", True and _max_reg(accepted) is not None and _max_reg(accepted) < 11,
